@@ -126,6 +126,7 @@ type State struct {
 	heap0  map[string]Term // entry heap (shared, lazily extended)
 	old    map[string]Term // snapshot used for old() inside callee-contract application (nil = heap0)
 	fr     *Frame
+	ghostFrame *Frame // when set: contract expressions of ghost/assert statements are evaluated over this (root) frame's names
 	held   map[string]string // lock key -> "w" / "r"
 	nonnil map[string]bool
 	panicking bool
